@@ -359,6 +359,13 @@ def execute(plan, tape):
 
     def same(label, ra, rb, term=None, what=""):
         """compare the twin outcomes of one call"""
+        if ra[0] == "exc" and rb[0] == "ok" and ra[1] == "PysmtTypeError" and "parser" in state["obj_failed"] \
+                and len(ra) > 2 and ra[2].startswith("Trying to redefine symbol"):
+            # F14 seen through another call: a (corrupted) script declared the symbol with
+            # another type before it failed to parse, and the declaration survived
+            raise Violation("C15:failed-parse:declared-symbol-survives",
+                            "%s %s: A gave %s after a script failed to parse; twin B gave %s" %
+                            (label, what, _short(ra), _short(rb)))
         if ra[0] != rb[0] or (ra[0] == "exc" and ra[1] != rb[1]):
             raise Violation("C15:%s:differs-after-failure" % label,
                             "%s %s: A (after failing calls %s) gave %s, twin B gave %s" %
@@ -472,6 +479,11 @@ def execute(plan, tape):
             fk = o["kind"]
             i = o["i"] % len(pool)
             term = pool[i]
+            # the *valid* parts of the composite operation (building the argument terms,
+            # the symbol with its original type) are ordinary successful calls: both twins
+            # make them; only the failing step itself is A's alone
+            for side in (A, B):
+                on(side, lambda side=side: _prepare_fault(o, term, symbols, side))
             fn, after = _fault_fn(o, term, symbols, user, A, tape)
             r = on(A, fn)
             if r[0] == "exc":
@@ -517,6 +529,24 @@ def _short(r):
     if r[0] == "exc":
         return "exception %s (%s)" % (r[1], r[2] if len(r) > 2 else "")
     return _safe_str(r[1])[:240]
+
+
+def _prepare_fault(o, term, symbols, side):
+    env = side.env
+    mgr = env.formula_manager
+    for key in ("a", "b", "key", "val", "t", "f"):
+        if key in o and isinstance(o[key], list):
+            try:
+                bp.build(o[key], env)
+            except Exception:
+                pass
+    bp.build(term, env)
+    if o["kind"] == "redefine_symbol" and o["name"] in symbols:
+        mgr.Symbol(o["name"], bp.to_pysmt_type(symbols[o["name"]], env))
+    if o["kind"] == "illtyped_construct":
+        mgr.Symbol("f", bp.to_pysmt_type(["Fun", [bp.INT], bp.INT], env))
+    if o["kind"] in ("solver_convert",):
+        mgr.Symbol("u", bp.to_pysmt_type(bp.REAL, env))
 
 
 def _fault_fn(o, term, symbols, user, side, tape):
